@@ -2,6 +2,7 @@
 # usage: tools/try_patch.sh <patch.diff | revert:<commit>> <PROP> [tier] [--tests]
 # Applies the change to a scratch worktree of /repo HEAD (outside /repo and /verif), optionally runs the
 # baseline suite there, runs ./check PROP with VERIF_REPO pointing at it, removes the worktree.
+VDIR=$(cd "$VDIR" && pwd)
 P="$1"; PROP="$2"; TIER="${3:-quick}"; TESTS="$4"
 D=$(mktemp -d /tmp/wt_XXXXXX); rmdir "$D"
 git -C /repo worktree add -q --detach "$D" HEAD || exit 9
@@ -13,7 +14,7 @@ esac
 if [ -n "$TESTS" ]; then
   /venv/bin/python -m pytest -q -p no:cacheprovider -x tests 2>&1 | tail -1
 fi
-cd "$(dirname "$0")/.."
+cd "$VDIR"
 VERIF_REPO="$D" ./check "$PROP" --tier "$TIER" 2>&1 | grep -v "^    " | head -${LINES_MAX:-14}
 RC=$?
 git -C /repo worktree remove --force "$D"
